@@ -1,4 +1,4 @@
-import RV.C04.QueryLemmas
+import RV.C04.ConstructLemmas
 /-
   C04 — "SPARQL graph patterns evaluate to the solution multiset the algebra defines".
 
@@ -18,8 +18,11 @@ import RV.C04.QueryLemmas
       expressions with comparisons, three-valued logic, bound, EXISTS / NOT EXISTS (patterns `Alg.existsOK`).
     * `eval_correct : Statement_eval_correct` (SELECT / ASK / CONSTRUCT with a blank-node-free template),
       `ask_correct`, `construct_correct`.
-    * only stated: `Statement_construct_correct_blank` (CONSTRUCT templates with blank nodes: equality up to a
-      renaming of the minted nodes; checked by the harness).
+    * `construct_correct_blank : Statement_construct_correct_blank` — CONSTRUCT templates WITH blank nodes: the model
+      threads a `BNode()` supply through the solutions as `_fillTemplate` / `evalConstructQuery` do; its graph is the
+      specification's instantiation of the same solutions under another injective naming of the minted nodes, all
+      drawn from the supply (`FreshSupply`: pairwise distinct, not among the data's nodes); `spec_naming_canonical`,
+      `freshSupply_driver`.
 -/
 namespace RV.C04
 open Spec Model
@@ -63,24 +66,33 @@ def Query.groundTemplate : Query → Prop
 
 /-- SELECT / ASK / CONSTRUCT give what the algebra gives. -/
 def Statement_eval_correct : Prop :=
-  ∀ (n : Nat) (D : Dataset) (q : Query), D.WF → q.safe = true → WellScoped n q.pattern → q.groundTemplate →
-    ResultEq (Model.evalQuery (n := n) D q) (Spec.evalQuery D q)
+  ∀ (n : Nat) (D : Dataset) (q : Query) (mint : Nat → Term), D.WF → q.safe = true → WellScoped n q.pattern →
+    q.groundTemplate → ResultEq (Model.evalQuery (n := n) mint D q) (Spec.evalQuery D q)
 
-/-- CONSTRUCT with template blank nodes: the graphs agree up to a renaming of the minted nodes (the model and the
-    specification enumerate the solutions in different orders).  Stated only; the harness compares the graphs
-    up to that renaming on every run. -/
-def renameFresh (f : Nat × Nat → Nat × Nat) : Term → Term
-  | .fresh s l => .fresh (f (s, l)).1 (f (s, l)).2
-  | t => t
+/-- What `BNode()` is assumed to do for the supply `mint` (`mint k` = the node returned by the k-th call): the nodes
+    are pairwise distinct, and none of them is among `avoid` (the nodes of the data and the constants of the query). -/
+def FreshSupply (mint : Nat → Term) (avoid : List Term) : Prop :=
+  Function.Injective mint ∧ ∀ k, mint k ∉ avoid
 
+/-- CONSTRUCT with template blank nodes.  The specification instantiates the template over its solutions `Ω` with
+    one node per (solution, template label); `Spec.instNamed tpl (Ω.zip names)` is that graph when solution number i
+    names its nodes by `names[i]` (`Spec.instTemplate` is the instance `names[i] = Term.fresh i`, see
+    `spec_naming_canonical`).  The model's graph — `_fillTemplate` run over the model's solutions in the model's
+    order, every `bnodeMap[label]` drawing the next `BNode()` from the supply — IS such an instantiation of the
+    specification's solutions, under a naming that is injective on (solution, label), whose nodes all come from the
+    supply and hence avoid the data's nodes: the two graphs are equal up to a renaming of the minted nodes. -/
 def Statement_construct_correct_blank : Prop :=
-  ∀ (n : Nat) (D : Dataset) (tpl : List TTP) (pv : List Nat) (p : Alg), D.WF → p.safe = true → WellScoped n p →
+  ∀ (n : Nat) (D : Dataset) (tpl : List TTP) (pv : List Nat) (p : Alg) (mint : Nat → Term) (avoid : List Term),
+    D.WF → p.safe = true → WellScoped n p →
     (∀ tp ∈ tpl, ∀ v ∈ tposVars tp.1 ++ tposVars tp.2.1 ++ tposVars tp.2.2, v ∈ pv ∨ v ∉ p.may) →
-    ∃ f : Nat × Nat → Nat × Nat, Function.Injective f ∧
+    FreshSupply mint avoid →
+    ∃ names : List (Nat → Term),
+      names.length = (Spec.eval D D.dflt (Row.empty : Row n) p).length ∧
+      (names.flatMap (fun ν => (tplLabels tpl).map ν)).Nodup ∧
+      (∀ ν ∈ names, ∀ l, (∃ k, ν l = mint k) ∧ ν l ∉ avoid) ∧
       ∀ t : Triple,
-        t ∈ Model.fillAll tpl ((Model.evalPart D D.dflt (Row.empty : Row n) p).map (·.restrict pv)) 0 ↔
-        ∃ t' ∈ Spec.instTemplate tpl (Spec.eval D D.dflt (Row.empty : Row n) p) 0,
-          t = (renameFresh f t'.1, renameFresh f t'.2.1, renameFresh f t'.2.2)
+        t ∈ Model.fillAll mint tpl ((Model.evalPart D D.dflt (Row.empty : Row n) p).map (·.restrict pv)) 0 ↔
+        t ∈ Spec.instNamed tpl ((Spec.eval D D.dflt (Row.empty : Row n) p).zip names)
 
 /-! ### Proved -/
 
@@ -102,7 +114,7 @@ theorem evalPart_top (n : Nat) (D : Dataset) (P : Alg) (hD : D.WF) (hs : P.safe 
   simpa using pushdown n D P hD hs hws g (Row.empty : Row n)
 
 theorem eval_correct : Statement_eval_correct := by
-  intro n D q hD hs hws hg
+  intro n D q mint hD hs hws hg
   cases q with
   | select pv p =>
     exact ⟨rfl, (evalPart_top n D p hD hs hws D.dflt).map _⟩
@@ -119,7 +131,7 @@ theorem eval_correct : Statement_eval_correct := by
     obtain ⟨hg1, hg2⟩ := hg
     simp only [Model.evalQuery, Spec.evalQuery, ResultEq]
     intro t
-    rw [fillAll_eq, mem_instTemplate_ground hg1, mem_instTemplate_ground hg1]
+    rw [fillAll_closed, mem_instNamed_ground hg1 t _ _ (length_namers _ _ _ _), mem_instTemplate_ground hg1]
     have hb : ∀ μ ∈ Spec.eval D D.dflt (Row.empty : Row n) p, BoundsOK μ p.must p.may :=
       fun μ hμ => spec_bounds p (Alg.inFragment_true p) hws D.dflt μ hμ
     constructor
@@ -150,29 +162,62 @@ theorem eval_correct : Statement_eval_correct := by
         | none => rfl
         | some y => exact absurd ((hb μ hμ).2 v (by simp [hget])) h1
 
-theorem eval_correct_partial (n : Nat) (D : Dataset) (q : Query) (hD : D.WF) (hs : q.safe = true)
-    (hws : WellScoped n q.pattern) (hg : q.groundTemplate) :
-    ResultEq (Model.evalQuery (n := n) D q) (Spec.evalQuery D q) :=
-  eval_correct n D q hD hs hws hg
+theorem eval_correct_partial (n : Nat) (D : Dataset) (q : Query) (mint : Nat → Term) (hD : D.WF)
+    (hs : q.safe = true) (hws : WellScoped n q.pattern) (hg : q.groundTemplate) :
+    ResultEq (Model.evalQuery (n := n) mint D q) (Spec.evalQuery D q) :=
+  eval_correct n D q mint hD hs hws hg
 
 /-- ASK is true iff the algebra's multiset is non-empty -/
-theorem ask_correct (n : Nat) (D : Dataset) (pv : List Nat) (p : Alg) (hD : D.WF)
+theorem ask_correct (n : Nat) (D : Dataset) (pv : List Nat) (p : Alg) (mint : Nat → Term) (hD : D.WF)
     (hs : p.safe = true) (hws : WellScoped n p) :
-    Model.evalQuery (n := n) D (.ask pv p) = .bool (!(Spec.eval D D.dflt (Row.empty : Row n) p).isEmpty) := by
-  have := eval_correct n D (.ask pv p) hD hs hws trivial
+    Model.evalQuery (n := n) mint D (.ask pv p) = .bool (!(Spec.eval D D.dflt (Row.empty : Row n) p).isEmpty) := by
+  have := eval_correct n D (.ask pv p) mint hD hs hws trivial
   simp only [Spec.evalQuery] at this
-  cases hm : Model.evalQuery (n := n) D (.ask pv p) with
+  cases hm : Model.evalQuery (n := n) mint D (.ask pv p) with
   | bool b => rw [hm] at this; simp only [ResultEq] at this; rw [this]
   | rows _ _ => simp [Model.evalQuery] at hm
   | graph _ => simp [Model.evalQuery] at hm
 
 /-- CONSTRUCT yields the (blank-node-free) template instantiated over the algebra's multiset -/
-theorem construct_correct (n : Nat) (D : Dataset) (tpl : List TTP) (pv : List Nat) (p : Alg) (hD : D.WF)
-    (hs : p.safe = true) (hws : WellScoped n p)
+theorem construct_correct (n : Nat) (D : Dataset) (tpl : List TTP) (pv : List Nat) (p : Alg) (mint : Nat → Term)
+    (hD : D.WF) (hs : p.safe = true) (hws : WellScoped n p)
     (hg : (Query.construct tpl pv p).groundTemplate) :
-    ResultEq (Model.evalQuery (n := n) D (.construct tpl pv p))
+    ResultEq (Model.evalQuery (n := n) mint D (.construct tpl pv p))
       (.graph (Spec.instTemplate tpl (Spec.eval D D.dflt (Row.empty : Row n) p) 0)) :=
-  eval_correct n D (.construct tpl pv p) hD hs hws hg
+  eval_correct n D (.construct tpl pv p) mint hD hs hws hg
+
+/-- CONSTRUCT with template blank nodes: the model's graph is the specification's, up to the naming of the minted nodes -/
+theorem construct_correct_blank : Statement_construct_correct_blank := by
+  intro n D tpl pv p mint avoid hD hs hws hv hfresh
+  have hperm := evalPart_top n D p hD hs hws D.dflt
+  have hb : ∀ μ ∈ Spec.eval D D.dflt (Row.empty : Row n) p, BoundsOK μ p.must p.may :=
+    fun μ hμ => spec_bounds p (Alg.inFragment_true p) hws D.dflt μ hμ
+  obtain ⟨N2, hp2, hl2, hz⟩ := perm_zip (hperm.map (·.restrict pv))
+    (namers mint (tplLabels tpl) 0 ((Model.evalPart D D.dflt (Row.empty : Row n) p).map (·.restrict pv)).length)
+    (length_namers _ _ _ _)
+  refine ⟨N2, by simpa using hl2, ?_, ?_, ?_⟩
+  · exact ((hp2.flatMap_right _).nodup_iff).mpr (nodup_minted mint hfresh.1 (nodup_tplLabels tpl) _ _)
+  · intro ν hν l
+    obtain ⟨k, hk⟩ := namers_are_minted mint _ _ _ ν (hp2.subset hν) l
+    exact ⟨⟨k, hk⟩, by rw [hk]; exact hfresh.2 k⟩
+  · intro t
+    rw [fillAll_closed, (instNamed_perm tpl hz).mem_iff, instNamed_map_restrict]
+    intro μ hμ tp htp ν
+    apply instTripleN_restrict
+    intro v hvv
+    rcases hv tp htp v hvv with h1 | h1
+    · exact Or.inl h1
+    · right
+      cases hget : μ.get v with
+      | none => rfl
+      | some y => exact absurd ((hb μ hμ).2 v (by simp [hget])) h1
+
+/-- the specification's own graph is the instantiation under the canonical naming `Term.fresh i` of solution `i`,
+    which is injective on (solution, label) as well -/
+theorem spec_naming_canonical (n : Nat) (tpl : List TTP) (Ω : List (Row n)) :
+    Spec.instTemplate tpl Ω 0 = Spec.instNamed tpl (Ω.zip ((List.range' 0 Ω.length).map Term.fresh)) ∧
+    (((List.range' 0 Ω.length).map Term.fresh).flatMap (fun ν => (tplLabels tpl).map ν)).Nodup :=
+  ⟨instTemplate_eq_instNamed tpl Ω 0, nodup_canonical tpl 0 Ω.length⟩
 
 end RV.C04
 
@@ -258,6 +303,34 @@ example : exPattern3.safe = true ∧ (∀ v ∈ exPattern3.allVars, v < 3) ∧ e
 example : (Model.evalPart exData3 exData3.dflt (Row.empty : Row 3) exPattern3).length = 3 := by decide +kernel
 example : (Spec.eval exData3 exData3.dflt (Row.empty : Row 3) exPattern3).length = 3 := by decide +kernel
 example : (Row.empty : Row 3).set 2 (i 20) ∈ Spec.eval exData3 exData3.dflt (Row.empty : Row 3) exPattern3 := by
+  decide +kernel
+
+/-- the supply of the compiled driver — `BNode()` number k is `Term.fresh k 0` — is fresh for every list of terms
+    that holds no minted node (the driver's term reader cannot produce `Term.fresh`) -/
+theorem freshSupply_driver (avoid : List Term) (h : ∀ t ∈ avoid, ∀ s l, t ≠ Term.fresh s l) :
+    FreshSupply (fun k => Term.fresh k 0) avoid := by
+  refine ⟨?_, fun k hk => h _ hk k 0 rfl⟩
+  intro a b hab
+  cases hab
+  rfl
+
+/-- CONSTRUCT with two template blank nodes shared between template triples:
+    `CONSTRUCT { _:b0 <10> _:b1 . _:b1 <11> ?v1 . ?v0 <10> _:b0 } WHERE { ?v0 <10> ?v1 }` over `exData` (2 solutions) -/
+def exTpl : List TTP :=
+  [(.blank 0, .const (i 10), .blank 1), (.blank 1, .const (i 11), .var 1), (.var 0, .const (i 10), .blank 0)]
+def exPattern4 : Alg := .bgp [tp (.var 0) (.const (i 10)) (.var 1)]
+
+example : tplLabels exTpl = [0, 1] := by decide
+example : FreshSupply (fun k => Term.fresh k 0) [i 0, i 1, i 2, i 10, i 11] :=
+  freshSupply_driver _ (by intro t ht s l; simp only [List.mem_cons, List.not_mem_nil, or_false] at ht
+                           rcases ht with rfl | rfl | rfl | rfl | rfl <;> simp [i])
+example : exPattern4.safe = true ∧ (∀ v ∈ exPattern4.allVars, v < 2) := by decide
+/-- 2 solutions × 3 template triples, 4 minted nodes: `BNode()` calls 0,1 for the first solution, 2,3 for the second -/
+example : Model.fillAll (fun k => Term.fresh k 0) exTpl
+      ((Model.evalPart exData exData.dflt (Row.empty : Row 2) exPattern4).map (·.restrict [0, 1])) 0 =
+    [(.fresh 0 0, i 10, .fresh 1 0), (.fresh 1 0, i 11, i 1), (i 0, i 10, .fresh 0 0),
+     (.fresh 2 0, i 10, .fresh 3 0), (.fresh 3 0, i 11, i 1), (i 1, i 10, .fresh 2 0)] := by decide +kernel
+example : (Spec.instTemplate exTpl (Spec.eval exData exData.dflt (Row.empty : Row 2) exPattern4) 0).length = 6 := by
   decide +kernel
 
 /-- push-down with a non-empty context that rules solutions out -/
